@@ -434,6 +434,8 @@ class DeserializationMethodVisitor(
             alias_by_name = {field.name: self.aliaser(field.alias) for field in fields}
             requiring: Dict[str, Set[str]] = defaultdict(set)
             for f, reqs in get_dependent_required(cls).items():
+                if f not in alias_by_name:  # field skipped for deserialization
+                    continue
                 for req in reqs:
                     requiring[req].add(alias_by_name[f])
             normal_fields, flattened_fields, pattern_fields = [], [], []
